@@ -349,6 +349,8 @@ fn bcf_roundtrip(tier: &str) -> Result<String, String> {
     for (i, g) in gts.iter().enumerate() { let h = &gts[(i * 7 + 3) % gts.len()]; let k = &gts[(i * 13 + 5) % gts.len()]; lines.push(("genotype".into(), rec(".", ".", "GT", [g, h, k]))); if tier == "thorough" { let (x, y, z) = (format!("{k}:1"), format!("{g}:2"), format!("{h}:.")); lines.push(("genotype".into(), rec(".", ".", "GT:XI", [&x, &y, &z]))); } }
     // alleles the encoding cannot carry: the writer must refuse them (or carry them) — never write something else
     for a in ["63", "64", "126", "127", "128"] { for g in [format!("{a}"), format!("0/{a}"), format!("{a}|1"), format!("1|{a}/0")] { lines.push(("genotype-large-allele".into(), rec(".", ".", "GT", [&g, "0/1", "."]))); } }
+    // a FORMAT column in which EVERY sample is missing, per type
+    for (k, f) in [("format-int", "XI"), ("format-int-array", "XA"), ("float", "XF"), ("string", "XS"), ("format-int-array", "XI:XA")] { lines.push((k.into(), rec(".", ".", f, if f.contains(':') { ["1:.", "2:.", ".:."] } else { [".", ".", "."] }))); }
     let fidx = [0usize, 1, 2, 125, 126, 127, 128, 129, 254, 255, 256, 257, 299];
     for &i in &fidx { lines.push(("filter".into(), rec(&format!("q{i}"), ".", "XI", ["1", "2", "3"]))); for &j in &fidx { if i != j { lines.push(("filter".into(), rec(&format!("q{i};q{j}"), ".", "XI", ["1", "2", "3"]))); } } }
     for n in [1usize, 2, 13, 14, 15, 16, 17, 126, 127, 128, 129, 254, 255, 256, 257, 300] { let t = "x".repeat(n); lines.push(("string".into(), rec(".", &format!("S1={t}"), "XS", [&t, ".", "y"]))); }
